@@ -6,6 +6,7 @@ pub mod cell;
 pub mod ebr;
 pub mod rc;
 pub mod seq;
+pub mod tls;
 
 pub struct ScenarioDef {
     pub name: &'static str,
@@ -18,6 +19,7 @@ pub fn all() -> Vec<&'static ScenarioDef> {
     v.extend(rc::SCENARIOS.iter());
     v.extend(seq::SCENARIOS.iter());
     v.extend(cell::SCENARIOS.iter());
+    v.extend(tls::SCENARIOS.iter());
     v.extend(ebr::SCENARIOS.iter());
     v
 }
